@@ -87,6 +87,9 @@ func c09Case(c *Ctx, stream string, orig *dns.Msg, size int, plain bool) {
 	ulen := orig.Len()
 	exOrig, opt := splitOpt(orig.Extra)
 	in := fmt.Sprintf("size=%d msg=%s", size, hx(mustPack(orig, false)))
+	// the reply may arrive with either compression setting; Truncate decides for itself
+	m.Compress = c.R.Bool()
+	in += " compress-before=" + b01(m.Compress)
 	out := guard(func() string { m.Truncate(size); return "ok" })
 	if out != "ok" {
 		c.Pred(stream, "truncate-panics", in, false, out, "ok", true)
